@@ -1,5 +1,13 @@
 import GridVerif.Props.C20
+import GridVerif.Props.C20.Pinned
 
 #print axioms GridVerif.C20.analysis_sound
 #print axioms GridVerif.C20.all_functions_safe
 #print axioms GridVerif.C20.library_never_writes_caller_data
+#print axioms GridVerif.C20.supplied_none_of_fits
+#print axioms GridVerif.C20.enter_pinned
+#print axioms GridVerif.C20.enter_conservative
+#print axioms GridVerif.C20.run_of_runC
+#print axioms GridVerif.C20.runC_sound
+#print axioms GridVerif.C20.all_pins_ok
+#print axioms GridVerif.C20.library_never_writes_caller_data_with_calls
